@@ -32,6 +32,24 @@
    covers (the anonymous-main check); what lifting / SSA / the passes produce
    besides the error ([after]); the options and the analysis order.
 
+   The project of a run is WELL FORMED BY THEOREM (C02_tied_project_is_wf): the
+   keys of the definitions handed to the runner are the images under [name_id]
+   of names that are pairwise different (TemplateLibrary::new keeps one
+   definition per name, functions and templates in one name space; the
+   desugarer hands back a selection of the names that went in; the new maps
+   have one entry per name handed back).  The theorems about a run therefore
+   do not ask for [wf_project] of the tied project: their hypothesis is that
+   [name_id] — the caller's numbering of the names — is injective.  Only the
+   runner-level theorems, stated for an arbitrary project, keep [wf_project].
+
+   FileStack::new as it is now (fix 517e7a0, Model.Includes.add_files_once)
+   skips a directory whose canonical path it has met before.  The theorems
+   about a run that speak of the specification's [named] (every spelling of
+   the command line expanded) carry the premise
+   [dirs_revisited canon is_dir read_dir join ext_circom dfuel argv libs = false]:
+   no directory was met twice while the command line was expanded.  It is
+   decidable and evaluated on every explored project.
+
    All TEN failure classes of the property text (Spec.NoSilentSpec) have their
    class theorem (C02_failure_classes_reported).  NINE are Derived: a named
    path that cannot be opened, a file whose content cannot be read, a named
@@ -57,10 +75,44 @@
    front). *)
 From Coq Require Import ZArith NArith Permutation Ascii String.
 Require Import Gen.Category Model.Runner Spec.RunnerSpec Proofs.RunnerProofs.
-From stdpp Require Import list strings.
+From stdpp Require Import list strings countable.
 Require Import Model.Includes Model.Front Model.FrontStages Spec.IncludesSpec Spec.NoSilentSpec Proofs.NoSilentProofs.
 Require Model.Ast Model.Desugar Model.LiftFull Model.PipelineMirrors Spec.ExpandSpec.
 Require Proofs.NoSilentStages Proofs.DesugarErrLoc Proofs.NoSilentMerger.
+
+(* the project of a run is well formed — one definition per (kind, name) key
+   in what is handed to the runner — for every file system, parser output and
+   desugarer answer, as soon as the numbering [name_id] of the names is
+   injective: [wf_project] of the tied project is not a hypothesis of the
+   theorems below *)
+Theorem C02_tied_project_is_wf :
+  forall (path : Type) (content : path -> file_content path)
+         (pf_id pf_name : Z) (payload : Includes.report (path:=path) -> Z)
+         (pragma : path -> option version) (has_main : path -> bool) (cv : version) (cs : codes)
+         (spay : stage_item path -> Z) (ord : nat -> list nat -> list nat) (horder : list nat -> list nat)
+         (prime : Z) (kv kd : nat) (err_file : PM.definition -> option N)
+         (name_id : String.string -> Z) (after : PM.definition -> def)
+         (s : parse_state (path:=path)) (lib : list (list N)) (defs_of : path -> list PM.definition)
+         (sd : Desugar.desugared) (rest' : list Runner.report),
+    sugar_input (program_of lib (all_definitions content defs_of (ps_files s))) = Desugar.DOk sd ->
+    (forall a b : String.string, name_id a = name_id b -> a = b) ->
+    wf_project (tied_project content pragma has_main cv pf_id pf_name cs spay ord horder prime kv kd err_file name_id after payload s lib defs_of sd rest').
+Proof. exact @NoSilentMerger.tied_project_is_wf. Qed.
+Print Assumptions C02_tied_project_is_wf.
+
+(* what `remove_syntactic_sugar` hands back is a selection of what went in: when
+   the names of the templates (of the functions) that go in are pairwise
+   different, so are those that come out, and each of them went in *)
+Theorem C02_desugarer_hands_back_a_selection : forall lib ts fs d,
+  Desugar.remove_syntactic_sugar lib ts fs = Desugar.DOk d ->
+  (List.NoDup (map fst ts) ->
+     List.NoDup (map fst (Desugar.d_templates d)) /\
+     forall n, In n (map fst (Desugar.d_templates d)) -> In n (map fst ts)) /\
+  (List.NoDup (map fst fs) ->
+     List.NoDup (map fst (Desugar.d_functions d)) /\
+     forall n, In n (map fst (Desugar.d_functions d)) -> In n (map fst fs)).
+Proof. exact NoSilentMerger.remove_syntactic_sugar_names. Qed.
+Print Assumptions C02_desugarer_hands_back_a_selection.
 
 (* all ten failure classes, on the project tied to the files that were read:
    the report of the event is displayed, it is error level, and the exit
@@ -85,18 +137,19 @@ Theorem C02_failure_classes_reported :
            (dfuel fuel : nat) (argv libs : list path) (s : parse_state),
       parse_files canon is_dir is_file read_dir join parent file_name ext_circom starts_dot has_sep content
                   false dfuel fuel argv libs = Base.Ok s ->
+      dirs_revisited canon is_dir read_dir join ext_circom dfuel argv libs = false ->
       forall (lib : list (list N)) (defs_of : path -> list PM.definition) (sd : Desugar.desugared)
              (rest' : list Runner.report),
         sugar_input (program_of lib (all_definitions content defs_of (ps_files s))) = Desugar.DOk sd ->
         forall (o : opts) (order : list key) (c : failure_class) (r : Runner.report),
-          wf_project (tied_project content pragma has_main cv pf_id pf_name cs spay ord horder prime kv kd err_file name_id after payload s lib defs_of sd rest') ->
+          (forall a b : String.string, name_id a = name_id b -> a = b) ->
           analysis_order (tied_project content pragma has_main cv pf_id pf_name cs spay ord horder prime kv kd err_file name_id after payload s lib defs_of sd rest') order ->
           failure_event_tied canon is_dir is_file read_dir join parent file_name ext_circom starts_dot has_sep content pf_id pf_name payload pragma has_main cv cs spay ord horder prime kv kd err_file argv libs s lib defs_of sd rest' c r ->
           ~ In (r_id r) (o_allow o) ->
           In r (res_shown (run_keys (tied_project content pragma has_main cv pf_id pf_name cs spay ord horder prime kv kd err_file name_id after payload s lib defs_of sd rest') o order)) /\
           r_level r = Error /\
           res_exit (run_keys (tied_project content pragma has_main cv pf_id pf_name cs spay ord horder prime kv kd err_file name_id after payload s lib defs_of sd rest') o order) = 1%Z.
-Proof. exact @NoSilentMerger.tied_classes_reported. Qed.
+Proof. exact @NoSilentMerger.inj_classes_reported. Qed.
 Print Assumptions C02_failure_classes_reported.
 
 (* the events are not hypothetical: a named file that does not parse, an
@@ -119,6 +172,7 @@ Theorem C02_front_failures_have_reports :
            (dfuel fuel : nat) (argv libs : list path) (s : parse_state),
       parse_files canon is_dir is_file read_dir join parent file_name ext_circom starts_dot has_sep content
                   false dfuel fuel argv libs = Base.Ok s ->
+      dirs_revisited canon is_dir read_dir join ext_circom dfuel argv libs = false ->
       forall (lib : list (list N)) (defs_of : path -> list PM.definition) (sd : Desugar.desugared)
              (rest' : list Runner.report),
         sugar_input (program_of lib (all_definitions content defs_of (ps_files s))) = Desugar.DOk sd ->
@@ -163,11 +217,12 @@ Theorem C02_clean_only_if_all_read_and_analysed :
            (dfuel fuel : nat) (argv libs : list path) (s : parse_state),
       parse_files canon is_dir is_file read_dir join parent file_name ext_circom starts_dot has_sep content
                   false dfuel fuel argv libs = Base.Ok s ->
+      dirs_revisited canon is_dir read_dir join ext_circom dfuel argv libs = false ->
       forall (lib : list (list N)) (defs_of : path -> list PM.definition) (sd : Desugar.desugared)
              (rest' : list Runner.report),
         sugar_input (program_of lib (all_definitions content defs_of (ps_files s))) = Desugar.DOk sd ->
         forall (o : opts) (order : list key),
-          wf_project (tied_project content pragma has_main cv pf_id pf_name cs spay ord horder prime kv kd err_file name_id after payload s lib defs_of sd rest') ->
+          (forall a b : String.string, name_id a = name_id b -> a = b) ->
           analysis_order (tied_project content pragma has_main cv pf_id pf_name cs spay ord horder prime kv kd err_file name_id after payload s lib defs_of sd rest') order ->
           res_exit (run_keys (tied_project content pragma has_main cv pf_id pf_name cs spay ord horder prime kv kd err_file name_id after payload s lib defs_of sd rest') o order) = 0%Z ->
           ~ In pf_id (o_allow o) ->
@@ -180,7 +235,7 @@ Theorem C02_clean_only_if_all_read_and_analysed :
              (forall e, d_err d = Some e -> r_level e = Error ->
                         not_in_included_only canon is_dir read_dir join ext_circom argv s e ->
                         In (r_id e) (o_allow o))).
-Proof. exact @NoSilentMerger.tied_clean_only_if_all_read_and_analysed. Qed.
+Proof. exact @NoSilentMerger.inj_clean_only_if_all_read_and_analysed. Qed.
 Print Assumptions C02_clean_only_if_all_read_and_analysed.
 
 (* exit status 0 with none of the error codes of the mirrored stages
@@ -207,11 +262,12 @@ Theorem C02_clean_only_if_stages_passed :
            (dfuel fuel : nat) (argv libs : list path) (s : parse_state),
       parse_files canon is_dir is_file read_dir join parent file_name ext_circom starts_dot has_sep content
                   false dfuel fuel argv libs = Base.Ok s ->
+      dirs_revisited canon is_dir read_dir join ext_circom dfuel argv libs = false ->
       forall (lib : list (list N)) (defs_of : path -> list PM.definition) (sd : Desugar.desugared)
              (rest' : list Runner.report),
         sugar_input (program_of lib (all_definitions content defs_of (ps_files s))) = Desugar.DOk sd ->
         forall (o : opts) (order : list key),
-          wf_project (tied_project content pragma has_main cv pf_id pf_name cs spay ord horder prime kv kd err_file name_id after payload s lib defs_of sd rest') ->
+          (forall a b : String.string, name_id a = name_id b -> a = b) ->
           analysis_order (tied_project content pragma has_main cv pf_id pf_name cs spay ord horder prime kv kd err_file name_id after payload s lib defs_of sd rest') order ->
           res_exit (run_keys (tied_project content pragma has_main cv pf_id pf_name cs spay ord horder prime kv kd err_file name_id after payload s lib defs_of sd rest') o order) = 0%Z ->
           (forall z, In z (stage_ids cs) -> ~ In z (o_allow o)) ->
@@ -225,7 +281,7 @@ Theorem C02_clean_only_if_stages_passed :
              (forall e, lift_outcome ord horder prime kv kd dd = Some e -> e <> LEParamCollision ->
                         err_file dd = None \/ err_file dd = PM.d_pfile dd ->
                         In (r_id (item_report pf_id pf_name cs spay (SILiftError dd e (err_file dd)))) (o_allow o))).
-Proof. exact @NoSilentMerger.tied_clean_only_if_stages_passed. Qed.
+Proof. exact @NoSilentMerger.inj_clean_only_if_stages_passed. Qed.
 Print Assumptions C02_clean_only_if_stages_passed.
 
 (* "... exit 0 only when every definition in it was analysed": exit status 0,
@@ -253,11 +309,12 @@ Theorem C02_clean_only_if_every_definition_analysed :
            (dfuel fuel : nat) (argv libs : list path) (s : parse_state),
       parse_files canon is_dir is_file read_dir join parent file_name ext_circom starts_dot has_sep content
                   false dfuel fuel argv libs = Base.Ok s ->
+      dirs_revisited canon is_dir read_dir join ext_circom dfuel argv libs = false ->
       forall (lib : list (list N)) (defs_of : path -> list PM.definition) (sd : Desugar.desugared)
              (rest' : list Runner.report),
         sugar_input (program_of lib (all_definitions content defs_of (ps_files s))) = Desugar.DOk sd ->
         forall (o : opts) (order : list key),
-          wf_project (tied_project content pragma has_main cv pf_id pf_name cs spay ord horder prime kv kd err_file name_id after payload s lib defs_of sd rest') ->
+          (forall a b : String.string, name_id a = name_id b -> a = b) ->
           analysis_order (tied_project content pragma has_main cv pf_id pf_name cs spay ord horder prime kv kd err_file name_id after payload s lib defs_of sd rest') order ->
           res_exit (run_keys (tied_project content pragma has_main cv pf_id pf_name cs spay ord horder prime kv kd err_file name_id after payload s lib defs_of sd rest') o order) = 0%Z ->
           (forall z, In z (stage_ids cs) -> ~ In z (o_allow o)) ->
@@ -271,7 +328,7 @@ Theorem C02_clean_only_if_every_definition_analysed :
             In d (defs_of f) ->
             In (MAnalyzing (runner_kind (PM.d_kind d), name_id (PM.d_name d)))
                (res_log (run_keys (tied_project content pragma has_main cv pf_id pf_name cs spay ord horder prime kv kd err_file name_id after payload s lib defs_of sd rest') o order)).
-Proof. exact @NoSilentMerger.clean_only_if_every_definition_analysed. Qed.
+Proof. exact @NoSilentMerger.inj_clean_only_if_every_definition_analysed. Qed.
 Print Assumptions C02_clean_only_if_every_definition_analysed.
 
 (* the boolean the extracted instance evaluates on every run decides [defs_file_ok] *)
@@ -363,6 +420,7 @@ Theorem C02_user_ids_are_named_files :
     forall (dfuel fuel : nat) (argv libs : list path) (s : parse_state),
       parse_files canon is_dir is_file read_dir join parent file_name ext_circom starts_dot has_sep content
                   false dfuel fuel argv libs = Base.Ok s ->
+      dirs_revisited canon is_dir read_dir join ext_circom dfuel argv libs = false ->
       forall z, In z (user_ids s) <-> file_is_named canon is_dir read_dir join ext_circom argv s z.
 Proof. exact @user_id_iff_named. Qed.
 Print Assumptions C02_user_ids_are_named_files.
@@ -421,6 +479,7 @@ Definition ex_opts : opts := mkOpts Error [] false false.
 
 Example C02_witnesses :
   canon_idempotent_b ex_fs = true /\
+  dirs_revisited_b ex_fs ex_argv [] = false /\
   exists s, run_project false ex_fs ex_argv [] = Base.Ok s /\
     ps_read s = [ str "/r/bad.circom"; str "/r/a.circom"; str "/r/b.circom" ] /\
     ps_reports s = [ FileOsError (str "nosuch.circom"); ParsingError 0; IncludeError (str "x.circom") (Some 1) 21 40 ] /\
@@ -429,7 +488,7 @@ Example C02_witnesses :
     res_shown (run_keys (front_project 1000 1000 ex_pay s [] []) ex_opts []) =
       [ mkReport Error 1000 1000 [] 1; mkReport Error 1000 1000 [0%Z] 2; mkReport Error 1000 1000 [1%Z] 3 ].
 Proof.
-  split; [reflexivity|]. eexists. split; [vm_compute; reflexivity|].
+  split; [reflexivity|]. split; [vm_compute; reflexivity|]. eexists. split; [vm_compute; reflexivity|].
   repeat split; vm_compute; reflexivity.
 Qed.
 
@@ -467,7 +526,8 @@ Definition ex_g_body : Ast.statement :=
     [Ast.InitializationBlock (ex_mk 16 22) Ast.VVar [Ast.Declaration (ex_mk 16 22) Ast.VVar "yy" [] true];
      Ast.Return (ex_mk 24 34) (Ast.Variable_ (ex_mk 31 33) "yy" [])].
 Definition ex_g : PM.definition := PM.Def "g" Ir.KFunction ["a"%string] (Some 1%N) (11%N, 12%N) ex_g_body.
-Definition ex_name2 (n : String.string) : Z := if String.eqb n "g" then 8 else 7.
+(* the numbering of the names: stdpp's encoding of strings as positive numbers (injective) *)
+Definition ex_name2 (n : String.string) : Z := Z.pos (encode n).
 Definition ex_m2 : Ast.meta := Ast.Meta 0 1 (Some 2%N).
 Definition ex_T2 : PM.definition := PM.Def "T" Ir.KTemplate [] (Some 2%N) (0%N, 0%N) (Ast.Block ex_m2 []).
 Definition ex_lib : list (list N) := [[0%N]; [0%N]; [0%N]].
@@ -488,10 +548,11 @@ Definition ex_sd : Desugar.desugared :=
 
 Example C02_events_satisfiable :
   run_project false ex_fs ex_argv [] = Base.Ok ex_s /\
+  dirs_revisited (d_canon ex_fs) (d_is_dir ex_fs) (d_read_dir ex_fs) s_join s_ext_circom dir_fuel ex_argv [] = false /\
   all_definitions (d_content ex_fs) ex_defs_of (ps_files ex_s) = [ex_T; ex_f; ex_g; ex_T2] /\
   sugar_input (program_of ex_lib (all_definitions (d_content ex_fs) ex_defs_of (ps_files ex_s))) = Desugar.DOk ex_sd /\
-  wf_project (tied_project (d_content ex_fs) ex_pragma ex_main (2, 1, 4) 1000 1000 ex_cs ex_spay ex_ord ex_horder 7%Z 0 0 PM.d_pfile ex_name2 ex_after ex_pay ex_s ex_lib ex_defs_of ex_sd []) /\
-  analysis_order (tied_project (d_content ex_fs) ex_pragma ex_main (2, 1, 4) 1000 1000 ex_cs ex_spay ex_ord ex_horder 7%Z 0 0 PM.d_pfile ex_name2 ex_after ex_pay ex_s ex_lib ex_defs_of ex_sd []) [(KFunction, 7%Z); (KFunction, 8%Z)] /\
+  (forall a b : String.string, ex_name2 a = ex_name2 b -> a = b) /\
+  analysis_order (tied_project (d_content ex_fs) ex_pragma ex_main (2, 1, 4) 1000 1000 ex_cs ex_spay ex_ord ex_horder 7%Z 0 0 PM.d_pfile ex_name2 ex_after ex_pay ex_s ex_lib ex_defs_of ex_sd []) [(KFunction, ex_name2 "f"); (KFunction, ex_name2 "g")] /\
     failure_event_tied (d_canon ex_fs) (d_is_dir ex_fs) (d_is_file ex_fs) (d_read_dir ex_fs) s_join s_parent s_file_name
                   s_ext_circom s_starts_dot s_has_sep (d_content ex_fs) 1000 1000 ex_pay ex_pragma ex_main (2, 1, 4) ex_cs ex_spay
                   ex_ord ex_horder 7%Z 0 0 PM.d_pfile ex_argv [] ex_s ex_lib ex_defs_of ex_sd [] MissingFile (mkReport Error 1000 1000 [] 1) /\
@@ -523,6 +584,7 @@ Proof.
   split; [vm_compute; reflexivity|].
   split; [vm_compute; reflexivity|].
   split; [vm_compute; reflexivity|].
+  split; [vm_compute; reflexivity|].
   assert (Hnamed : named (d_canon ex_fs) (d_is_dir ex_fs) (d_read_dir ex_fs) s_join s_ext_circom ex_argv (str "/r/a.circom")).
   { exists (str "a.circom"). split; [right; left|]. apply expands_file; reflexivity. }
   assert (Hbad : named (d_canon ex_fs) (d_is_dir ex_fs) (d_read_dir ex_fs) s_join s_ext_circom ex_argv (str "/r/bad.circom")).
@@ -532,8 +594,7 @@ Proof.
   assert (Hfile1 : file_is_named (d_canon ex_fs) (d_is_dir ex_fs) (d_read_dir ex_fs) s_join s_ext_circom ex_argv ex_s 1%Z).
   { exists 1, (str "/r/a.circom"), true. split; [reflexivity|]. split; [reflexivity|exact Hnamed]. }
   split.
-  { unfold wf_project. vm_compute. apply List.NoDup_cons; [intros [H|[]]; discriminate H|].
-    apply List.NoDup_cons; [intros []|apply List.NoDup_nil]. }
+  { intros a b H. unfold ex_name2 in H. injection H. apply (inj encode). }
   split. { vm_compute. apply Permutation_refl. }
   split. { simpl. exists (str "nosuch.circom"), (str "nosuch.circom"). split; [do 2 right; left|].
            split; [apply fto_file; reflexivity|reflexivity]. }
@@ -591,10 +652,11 @@ Definition ex2_sd : Desugar.desugared :=
 
 Example C02_clean_run_satisfiable :
   exists s, run_project false ex2_fs ex2_argv [] = Base.Ok s /\
+    dirs_revisited (d_canon ex2_fs) (d_is_dir ex2_fs) (d_read_dir ex2_fs) s_join s_ext_circom dir_fuel ex2_argv [] = false /\
     sugar_input (program_of ex2_lib (all_definitions (d_content ex2_fs) ex2_defs_of (ps_files s))) = Desugar.DOk ex2_sd /\
-    wf_project (tied_project (d_content ex2_fs) ex_pragma ex_main (2, 1, 4) 1000 1000 ex_cs ex_spay ex_ord ex_horder 7%Z 0 0 PM.d_pfile ex_name2 ex_after ex_pay s ex2_lib ex2_defs_of ex2_sd []) /\
-    analysis_order (tied_project (d_content ex2_fs) ex_pragma ex_main (2, 1, 4) 1000 1000 ex_cs ex_spay ex_ord ex_horder 7%Z 0 0 PM.d_pfile ex_name2 ex_after ex_pay s ex2_lib ex2_defs_of ex2_sd []) [(KTemplate, 7%Z)] /\
-    res_exit (run_keys (tied_project (d_content ex2_fs) ex_pragma ex_main (2, 1, 4) 1000 1000 ex_cs ex_spay ex_ord ex_horder 7%Z 0 0 PM.d_pfile ex_name2 ex_after ex_pay s ex2_lib ex2_defs_of ex2_sd []) ex_opts [(KTemplate, 7%Z)]) = 0%Z /\
+    (forall a b : String.string, ex_name2 a = ex_name2 b -> a = b) /\
+    analysis_order (tied_project (d_content ex2_fs) ex_pragma ex_main (2, 1, 4) 1000 1000 ex_cs ex_spay ex_ord ex_horder 7%Z 0 0 PM.d_pfile ex_name2 ex_after ex_pay s ex2_lib ex2_defs_of ex2_sd []) [(KTemplate, ex_name2 "C")] /\
+    res_exit (run_keys (tied_project (d_content ex2_fs) ex_pragma ex_main (2, 1, 4) 1000 1000 ex_cs ex_spay ex_ord ex_horder 7%Z 0 0 PM.d_pfile ex_name2 ex_after ex_pay s ex2_lib ex2_defs_of ex2_sd []) ex_opts [(KTemplate, ex_name2 "C")]) = 0%Z /\
     o_allow ex_opts = [] /\
     defs_file_ok (d_content ex2_fs) s ex2_defs_of /\
     bodies_in_file (d_content ex2_fs) s ex2_defs_of /\
@@ -603,11 +665,12 @@ Example C02_clean_run_satisfiable :
     parses (d_content ex2_fs) (str "/r/c.circom") = true /\
     In ex2_C (ex2_defs_of (str "/r/c.circom")) /\
     In (MAnalyzing (runner_kind (PM.d_kind ex2_C), ex_name2 (PM.d_name ex2_C)))
-       (res_log (run_keys (tied_project (d_content ex2_fs) ex_pragma ex_main (2, 1, 4) 1000 1000 ex_cs ex_spay ex_ord ex_horder 7%Z 0 0 PM.d_pfile ex_name2 ex_after ex_pay s ex2_lib ex2_defs_of ex2_sd []) ex_opts [(KTemplate, 7%Z)])).
+       (res_log (run_keys (tied_project (d_content ex2_fs) ex_pragma ex_main (2, 1, 4) 1000 1000 ex_cs ex_spay ex_ord ex_horder 7%Z 0 0 PM.d_pfile ex_name2 ex_after ex_pay s ex2_lib ex2_defs_of ex2_sd []) ex_opts [(KTemplate, ex_name2 "C")])).
 Proof.
   eexists. split; [vm_compute; reflexivity|].
   split; [vm_compute; reflexivity|].
-  split. { unfold wf_project. vm_compute. apply List.NoDup_cons; [intros []|apply List.NoDup_nil]. }
+  split; [vm_compute; reflexivity|].
+  split. { intros a b H. unfold ex_name2 in H. injection H. apply (inj encode). }
   split. { vm_compute. apply Permutation_refl. }
   split; [vm_compute; reflexivity|].
   split; [reflexivity|].
